@@ -82,6 +82,10 @@ def run(prop, tier, seed, replay=None):
                    "VERIF_LOOPS": str(loops[bi % len(loops)]), "VERIF_WATCHDOG_S": str(wd)}
             if guard > 1 and frm >= 0:
                 env["VERIF_NO_DIRECTED"] = "1"
+            # per-process configuration that trials cannot change: node capacity of every LinkBuffer
+            # (default, doubled, tiny) and the load-balancing mode of the global poller pool
+            env["VERIF_LBCAP"] = str([0, 0, 8192, 512][(bi // 3) % 4])
+            env["VERIF_LB_RANDOM"] = str((bi // 5) % 2)
             env.update(conf.get("env", {}))
             alts = conf.get("env_alt")
             if alts:
